@@ -3,4 +3,4 @@ from . import session
 FAMILIES = [('timesync', 1.0), ('clean', 0.4)]
 
 def main(ctx):
-    session.run(ctx, "C15", FAMILIES, quick_count=100, thorough_count=4000, prop_mod=None)
+    session.run(ctx, "C15", FAMILIES, quick_count=100, thorough_count=4000, prop_mod=session.PROP_MODS.get("C15"))
